@@ -36,4 +36,5 @@ def main(tier):
     chk.run("R-SCOPECHAIN", RR.scopechain, r, floor=2)
     chk.run("R-REFHEAD", RR.refhead, cx.repo, floor=1)
     chk.run("R-CONSTREFKIND", RR.constrefkind, cx.repo, floor=2)
+    chk.run("R-SCOPEFILL", RR.scopefill, cx.repo, floor=5)
     return chk.finish()
